@@ -220,3 +220,40 @@ func TestC05_Model_GraceBoundary(t *testing.T) {
 		}
 	}
 }
+
+// A destination that cannot half-close (no CloseWrite, typical for proxied outbounds):
+// the FIN cannot be passed on, but the opposite direction is still bounded by the
+// grace period — the relay ends at exactly T1 + grace when the other side never closes,
+// and at the other side's FIN when that comes in time.
+func TestC05_Model_NoCloseWrite(t *testing.T) {
+	for _, handleConn := range []bool{false, true} {
+		for _, side := range []int{0, 1} { // 0: left cannot half-close (upstream FINs), 1: right (client FINs)
+			for _, order := range []string{c05CloseServerNever, c05CloseClientNever, c05CloseClient, c05CloseServer} {
+				firstIsClient := order == c05CloseServerNever || order == c05CloseClient
+				if (side == 1) != firstIsClient {
+					continue // the FIN must head for the side that cannot half-close
+				}
+				s := &c05Scn{Mem: true, HandleConn: handleConn, Stack: c05StackPlain, ReadChunk: [2]int{4096, 4096},
+					SniffT: 100 * time.Millisecond, DnsT: TCPDNSFirstReadTimeout, FirstKind: "random", Open: c05OpenPrompt, Close: order,
+					First: 40, C2U: c05Fill(1, 100), U2C: c05Fill(2, 100), TailAfterFin: true}
+				s.NoCW[side] = true
+				never := order == c05CloseServerNever || order == c05CloseClientNever
+				first := []c05Step{{Op: c05OpWrite, N: 100}, {Op: c05OpCloseWrite}}
+				second := []c05Step{{Op: c05OpWaitRecv, N: 100}, {Op: c05OpWrite, N: 60}, {Op: c05OpSleep, D: 3 * time.Second}, {Op: c05OpWrite, N: 40}}
+				if !never {
+					second = append(second, c05Step{Op: c05OpSleep, D: 2 * time.Second}, c05Step{Op: c05OpCloseWrite})
+				}
+				if firstIsClient {
+					s.CSteps, s.SSteps = first, second
+				} else {
+					s.CSteps, s.SSteps = second, first
+				}
+				v := c05RunBubble(t, s, c05NoKnown(true))
+				if v.fail != "" {
+					t.Fatalf("handleConn=%v noCloseWrite=%v order=%s: %s", handleConn, s.NoCW, order, v.fail)
+				}
+				vkCase("C05.findings", fmt.Sprintf("nocw|%v|%d|%s", handleConn, side, order), func() any { return s.Summary() }, "model_no_closewrite")
+			}
+		}
+	}
+}
